@@ -353,7 +353,10 @@ def finish(res, checker_cmd, level='proof'):
     ev = dict(property_id=res.prop, tier=res.tier, seed=res.seed, level=level, coverage=coverage,
               assumptions=res.trusted, wall_s=round(time.time() - res.t0, 2),
               violations=len(new_violations) + (1 if (res.broken and not new_violations) else 0))
-    write_json(os.path.join(VERIF, 'evidence', '%s.json' % res.prop), ev)
+    # a run against a scratch copy of the repository (VERIF_REPO set by tools/try_seed.py) must not replace the evidence of /repo
+    evdir = 'evidence' if os.path.realpath(os.environ.get('VERIF_REPO', '/repo')) == os.path.realpath('/repo') else 'evidence-scratch'
+    os.makedirs(os.path.join(VERIF, evdir), exist_ok=True)
+    write_json(os.path.join(VERIF, evdir, '%s.json' % res.prop), ev)
     if rc:
         if new_violations:
             print('VIOLATION property=%s replay=%s' % (res.prop, replay_path))
